@@ -42,16 +42,29 @@ def _census(cases=None):
             for r in out if not r['ok']], len(out)
 
 
+def _scenarios(cases=None):
+    """tools/session_scenarios.py: fixed multi-step scenarios the history fuzzer does not generate (see its docstring)."""
+    import vlib
+    out = vlib.run_impl('session_scenarios.py', {'family': 'c12', 'cases': cases}, timeout=600)['results']
+    return [vlib.Failure('c12-scenario:' + r['case'], 'the two ends of a many-to-many relationship disagree (%s): %s' % (r['case'], r['detail'][:700]), {'scenario_case': r['case']})
+            for r in out if not r['ok']], len(out)
+
+
 def search(ctx, deep):
     s = chk.search(ctx, deep, ID)
     fails, n = _census()
-    s.failures = fails + list(s.failures)
-    s.evaluations += n
+    fails2, n2 = _scenarios()
+    s.failures = fails + fails2 + list(s.failures)
+    s.evaluations += n + n2
     s.distribution['relationship_census_cases'] = n
+    s.distribution['fixed_scenarios'] = n2
     return s
 
 
 def replay(ctx, data):
+    if 'scenario_case' in data:
+        fails, _ = _scenarios([data['scenario_case']])
+        return fails[0] if fails else None
     if 'census_case' in data:
         fails, _ = _census([data['census_case']])
         return fails[0] if fails else None
@@ -66,7 +79,7 @@ LEVEL_TEXT = ('Machine-checked proof (Coq 8.16.1) over the executable session mo
               'partially loaded collections. One defect site has a witness (failed creation leaves a one-sided link) stated under the source-derived flag failed_create_unregisters: repaired in /repo by 751c8a4, vacuous on HEAD, recorded as fixed, as are the one-sided links after a refused delete / failing Entity.set with a collection argument (e3298c1); two further known findings lie in steps the '
               'model declines (Entity.set mixing reference and collection arguments; creation referring to a deleted object). One-to-one, many-to-many and symmetric '
               'relationships (Stage 2) are outside the theorems; they are covered on the implementation side only: many-to-many and one-to-one by the oracles of the history search, composite primary keys containing '
-              'relationships, self references, symmetric relationships and subclasses by a fixed relationship census (tools/c12_census.py). Tie: as for C11; in addition the many-to-many link-set model coq/Model/SessionM2M.v (Stage 2 piece: both SetData views with added/removed, loads, add/remove/assignment, flush) is compared with real Pony + SQLite on generated histories on every run - every read of either side must agree -, which is a differential check of the both-ends behaviour for many-to-many, not a proof (no invariant is proved for that model).')
+              'relationships, self references, symmetric relationships and subclasses by a fixed relationship census (tools/c12_census.py); membership probes (`x in a.coll`) on partially loaded many-to-many collections before and after the link is made or removed from the OTHER end (add, assignment, add/remove/add, add+flush, remove) must agree with the probe of the other end, iteration of both ends and a new session (tools/session_scenarios.py, family c12, 10 cases). Tie: as for C11; in addition the many-to-many link-set model coq/Model/SessionM2M.v (Stage 2 piece: both SetData views with added/removed, loads, add/remove/assignment, flush) is compared with real Pony + SQLite on generated histories on every run - every read of either side must agree -, which is a differential check of the both-ends behaviour for many-to-many, not a proof (no invariant is proved for that model).')
 LEVEL_NOTE = ('Trusted: Coq kernel + vm_compute; the hand-written model (tied by differential runs only); the fuzzer harness; the SQLite reference semantics. '
               'The invariant speaks about the loaded view of collections (SetData items); agreement of a partially loaded collection with the database rows is part of C09/C10.')
 TECHNIQUE = 'Coq inductive invariant over an executable session model (all histories, fold_left); vm_compute correspondence with real Pony+SQLite on generated histories; property-oracle search with ddmin shrinking'
